@@ -10,6 +10,7 @@ import json
 import attr
 
 from pydoctor.templatewriter.pages import Page
+from pydoctor.templatewriter.util import is_documented
 from pydoctor import model, epydoc2stan, node2stan
 
 from twisted.web.template import Tag, renderer
@@ -38,7 +39,7 @@ def get_all_documents_flattenable(system: model.System) -> Iterator[Dict[str, "F
             'url':        ob.url,
             'privacy':    str(ob.privacyClass.name)}   
 
-            for ob in system.allobjects.values() if ob.isVisible)
+            for ob in system.allobjects.values() if is_documented(ob))
 
 class AllDocuments(Page):
     
@@ -125,7 +126,7 @@ class LunrIndexWriter:
                     "boost": self.get_ob_boost(ob)
                 }
             )
-            for ob in (o for o in self.system.allobjects.values() if o.isVisible)
+            for ob in (o for o in self.system.allobjects.values() if is_documented(o))
         ]
 
     def write(self) -> None:
